@@ -31,14 +31,17 @@ type c05Decl struct {
 	P  *string           `long:"p" env:"ZP"`
 	G  c05G              `group:"g" env-namespace:"NS" namespace:"g"`
 	O  c05Out            `group:"gout" env-namespace:"OUT" namespace:"out"`
+	// an option with an optional argument: given without one it takes its
+	// optional value, which lower-ranked sources must not overwrite
+	OV string `long:"ov" optional:"yes" optional-value:"OPT" env:"ZOV" default:"D"`
 	// an option of a command: it gets its defaults whether or not the command is selected
 	Add c05Cmd `command:"add"`
 	Rm  c05Rm  `command:"rm"`
 }
 
-var c05Keys = []string{"s", "sd", "l", "ld", "m", "md", "p", "g.n", "out.in.n2", "cs"}
-var c05Env = []string{"ZS", "ZSD", "ZL", "ZLD", "ZM", "ZMD", "ZP", "NS_N", "OUT_IN_N2", "ZCS"}
-var c05HasDef = []bool{false, true, false, true, false, true, false, true, true, true}
+var c05Keys = []string{"s", "sd", "l", "ld", "m", "md", "p", "g.n", "out.in.n2", "cs", "ov"}
+var c05Env = []string{"ZS", "ZSD", "ZL", "ZLD", "ZM", "ZMD", "ZP", "NS_N", "OUT_IN_N2", "ZCS", "ZOV"}
+var c05HasDef = []bool{false, true, false, true, false, true, false, true, true, true, true}
 
 func c05Kind(opt int) int { // 0 scalar, 1 slice, 2 map, 3 pointer
 	switch opt {
@@ -88,6 +91,9 @@ func c05Get(o *c05Decl, opt int) []string {
 	}
 	if opt == 9 {
 		return []string{o.Add.CS}
+	}
+	if opt == 10 {
+		return []string{o.OV}
 	}
 	return []string{o.G.N}
 }
@@ -155,6 +161,8 @@ func H_C05_rank(v *V) {
 			o.O.In.N2 = I
 		case 9:
 			o.Add.CS = I
+		case 10:
+			o.OV = I
 		}
 		switch kind {
 		case 0, 3:
@@ -199,6 +207,11 @@ func H_C05_rank(v *V) {
 		if hasCli {
 			v.Assume(sel == 1)
 		}
+	}
+	if opt == 10 && hasCli && v.Choice(2) == 1 {
+		// given without an argument: the optional value is what was denoted
+		cliArgs = []string{"--ov"}
+		cliV = []string{"OPT"}
 	}
 	if envState == 2 {
 		envText = ""
